@@ -223,12 +223,14 @@ def reallocBlock (p : PtrV) (old new live : Nat) (res : PtrV) : M α Unit := do
   | .null =>
     -- realloc(nullptr, n) / allocate + relocate 0 + deallocate(nullptr, 0)
     if old ≠ 0 || live ≠ 0 then fault .badRealloc
-    tick .badAlloc
     if canRealloc then
-      modify fun m => { m with blocks := ⟨id', new, rawBuf new⟩ :: m.blocks, ev := { m.ev with re := m.ev.re + 1 } }
+      bumpEv fun e => { e with re := e.re + 1 }
+      tick .badAlloc
+      modify fun m => { m with blocks := ⟨id', new, rawBuf new⟩ :: m.blocks }
     else
-      modify fun m => { m with blocks := ⟨id', new, rawBuf new⟩ :: m.blocks,
-                               ev := { m.ev with al := m.ev.al + 1, de := m.ev.de + 1 } }
+      bumpEv fun e => { e with al := e.al + 1 }
+      tick .badAlloc
+      modify fun m => { m with blocks := ⟨id', new, rawBuf new⟩ :: m.blocks, ev := { m.ev with de := m.ev.de + 1 } }
   | .blk id =>
     match ← findBlock id with
     | none => fault .badRealloc
@@ -236,10 +238,10 @@ def reallocBlock (p : PtrV) (old new live : Nat) (res : PtrV) : M α Unit := do
       if b.count ≠ old then fault .badRealloc
       if live > old || live > new then fault .badRealloc
       if canRealloc then
+        bumpEv fun e => { e with re := e.re + 1 }
         tick .badAlloc
         let nb : List (Slot α) := (b.buf.take new) ++ rawBuf (new - b.buf.length)
-        modify fun m => { m with blocks := ⟨id', new, nb⟩ :: m.blocks.filter (·.id != id),
-                                 ev := { m.ev with re := m.ev.re + 1 } }
+        modify fun m => { m with blocks := ⟨id', new, nb⟩ :: m.blocks.filter (·.id != id) }
       else
         allocBlock new id'
         uninitRelocN ⟨.blk id, 0⟩ live ⟨.blk id', 0⟩
